@@ -271,7 +271,7 @@ struct Sys {
 	const char *tclass() const
 	{
 		if (!tbuf()) return "no-table";
-		return had_growth ? "grown-table" : (had_free ? "table-with-freed-slot" : "small-table");
+		return had_growth ? "grown-table" : (had_free || has_free_slot() ? "table-with-freed-slot" : "small-table");
 	}
 	const char *target_class(uint64_t id) const
 	{
@@ -649,10 +649,9 @@ bool Sys::apply_wait(const Letter &l)
 //             large:<a>.<b>      dispatcher, large alphabet, continues from the state reached by letters a, b
 //             wait:<k>           reply table pre-filled with k outstanding requests
 static const int SPLIT = 2;
-static int env_int(const char *name, int dflt) { const char *e = getenv(name); return e ? atoi(e) : dflt; }
-static int closure_depth(Tier t) { return env_int("MC_C11_CLOSURE", t == Quick ? 16 : 24); }
-static int large_depth(Tier t) { return env_int("MC_C11_LARGE", t == Quick ? 3 : 5); }
-static int wait_depth(Tier t) { return env_int("MC_C11_WAIT", t == Quick ? 6 : 8); }
+static int closure_depth(Tier t) { return t == Quick ? 16 : 24; }
+static int large_depth(Tier t) { return t == Quick ? 4 : 6; }
+static int wait_depth(Tier t, unsigned prefill) { return t == Quick ? 6 : (prefill ? 7 : 9); }
 
 // distinct canonical states first reached after exactly SPLIT letters of the large alphabet (computed in a forked child:
 // a fault in the code under test must surface as a violation of the root job, not break the job listing)
@@ -685,7 +684,7 @@ void mc_jobs(Tier t, std::vector<std::string> &jobs)
 	if (t == Thorough) jobs.push_back("wait:8");
 	jobs.push_back("large:root");
 	if (large_depth(t) > SPLIT) {
-		std::string s = in_child([]() { return split_jobs(); }, 60);
+		std::string s = in_child([]() { return split_jobs(); }, 300);
 		if (!s.empty() && s[0] != '\x01') { size_t p = 0, q; while ((q = s.find('\n', p)) != std::string::npos) { jobs.push_back(s.substr(p, q - p)); p = q + 1; } }
 		else jobs.push_back("large:unsplit");
 	}
@@ -717,7 +716,7 @@ void mc_explore(Run &r, const std::string &job)
 	std::vector<uint64_t> inits;
 	std::vector<int> prefix;
 	int depth;
-	if (job.compare(0, 5, "wait:") == 0) { inits.push_back(make_init(r.tier == Quick ? 2 : 3, (unsigned) strtoul(job.c_str() + 5, 0, 10), prefix)); depth = wait_depth(r.tier); }
+	if (job.compare(0, 5, "wait:") == 0) { inits.push_back(make_init(r.tier == Quick ? 2 : 3, (unsigned) strtoul(job.c_str() + 5, 0, 10), prefix)); depth = wait_depth(r.tier, (unsigned) strtoul(job.c_str() + 5, 0, 10)); }
 	else if (job == "closure") { inits.push_back(make_init(0, 0, prefix)); depth = closure_depth(r.tier); }
 	else if (job == "large:root") { inits.push_back(make_init(1, 0, prefix)); depth = std::min(SPLIT, large_depth(r.tier)); }
 	else if (job == "large:unsplit") { inits.push_back(make_init(1, 0, prefix)); depth = large_depth(r.tier); }
